@@ -6,17 +6,59 @@ use std::collections::{HashMap, HashSet};
 pub struct TypeLookupImpl<'a> {
     types: &'a [Type],
     tuples: &'a [TupleTypeInfo],
+    /// Types that are not in the program's table; their ids follow on from `types`.
+    process_types: Vec<Type>,
 }
 
 impl<'a> TypeLookupImpl<'a> {
     pub fn new(types: &'a [Type], tuples: &'a [TupleTypeInfo]) -> Self {
-        TypeLookupImpl { types, tuples }
+        TypeLookupImpl {
+            types,
+            tuples,
+            process_types: Vec::new(),
+        }
+    }
+
+    /// A lookup over the program's types, extended with the process type of every function that
+    /// has none in the table. A process value is typed by the function it runs, but the compiler
+    /// registers that process type only where it sees the function spawned. The function that the
+    /// top-level process runs is never spawned: without its process type the process's own pid
+    /// (`&.`) would be compatible with no pattern at all.
+    fn with_process_types(input: &CompatibilityInput<'a>) -> Self {
+        let mut known: HashSet<(Option<usize>, Option<usize>)> = input
+            .types
+            .iter()
+            .filter_map(|ty| match ty {
+                Type::Process { send, receive } => Some((*send, *receive)),
+                _ => None,
+            })
+            .collect();
+        let mut process_types = Vec::new();
+        for func in input.functions {
+            let (_, _, send, receive) = extract_function_type_info(func, input.types);
+            if send.is_some() && known.insert((send, receive)) {
+                process_types.push(Type::Process { send, receive });
+            }
+        }
+        TypeLookupImpl {
+            types: input.types,
+            tuples: input.tuples,
+            process_types,
+        }
+    }
+
+    /// Every type of the lookup with its id.
+    fn types(&self) -> impl Iterator<Item = (usize, &Type)> {
+        self.types.iter().chain(&self.process_types).enumerate()
     }
 }
 
 impl<'a> TypeLookup for TypeLookupImpl<'a> {
     fn lookup_type(&self, type_id: usize) -> Option<&Type> {
-        self.types.get(type_id)
+        match type_id.checked_sub(self.types.len()) {
+            None => self.types.get(type_id),
+            Some(extra) => self.process_types.get(extra),
+        }
     }
 
     fn lookup_tuple(&self, tuple_id: usize) -> Option<&TupleTypeInfo> {
@@ -61,7 +103,7 @@ fn extract_function_type_info(
 /// allowing O(1) runtime type checking instead of recursive type traversal.
 /// Returns a Vec where index is type_id and value is the set of compatible concrete types.
 pub fn compute_type_compatibility(input: &CompatibilityInput) -> Vec<HashSet<ConcreteType>> {
-    let lookup = TypeLookupImpl::new(input.types, input.tuples);
+    let lookup = TypeLookupImpl::with_process_types(input);
     let index = TypeIndex::build(input, &lookup);
 
     // Collect all pattern type IDs (types used in IsType instructions)
@@ -115,7 +157,7 @@ pub fn compute_canonical_tuples(tuples: &[TupleTypeInfo]) -> Vec<usize> {
 pub fn compute_param_compatibility(
     input: &CompatibilityInput,
 ) -> (Vec<HashSet<ConcreteType>>, Vec<HashSet<ConcreteType>>) {
-    let lookup = TypeLookupImpl::new(input.types, input.tuples);
+    let lookup = TypeLookupImpl::with_process_types(input);
     let index = TypeIndex::build(input, &lookup);
 
     // Many functions share a parameter type, so memoise the result by parameter type id.
@@ -175,7 +217,7 @@ impl TypeIndex {
         };
         // Single pass over the type table, keeping the first occurrence of each shape
         // (matching the previous `.position()` behaviour).
-        for (type_id, ty) in input.types.iter().enumerate() {
+        for (type_id, ty) in lookup.types() {
             match ty {
                 Type::Integer => {
                     index.integer.get_or_insert(type_id);
